@@ -13,13 +13,18 @@ Spec == Init /\ [][Next]_i
 ViewOf(st) == [vals |-> st.vals, runs |-> st.runs, calls |-> st.calls, extra |-> st.extra]
 SameView(v, st) == /\ \A a \in Attrs : v.vals[a] = st.vals[a]
                    /\ \A a \in Dynamic : v.runs[a] = st.runs[a]
-                   /\ v.calls = st.calls /\ v.extra = st.extra
+                   /\ v.calls = st.calls /\ v.extra = st.extra /\ v.w = st.w
 Clauses(c) ==
   LET k == c.actor
-      pre == [vals |-> c.pre[k].vals, runs |-> c.pre[k].runs, calls |-> c.pre[k].calls, extra |-> c.pre[k].extra, regs |-> c.regs]
+      pre == [vals |-> c.pre[k].vals, runs |-> c.pre[k].runs, calls |-> c.pre[k].calls, extra |-> c.pre[k].extra, regs |-> c.regs,
+              w |-> c.pre[k].w, wobs |-> c.wobs]
       r == IF c.op \in {"create", "touch_undeclared"} THEN [st |-> pre, ret |-> "ok"] ELSE Apply(c.op, pre, c.a, c.v, c.sub[k] = 1)
       others == {j \in 1..Len(c.pre) : j # k}
-  IN (IF SameView(c.post[k], r.st) THEN {} ELSE {"C10-actor-view"})
+      \* Named deviation (known finding C10/F12, second symptom): the name under the wildcard was resolved - and cached in
+      \* the class - by another instance's use; the observers this instance registered while the name was unknown wait for
+      \* a trait_added that never comes: they (c.waiting of them) miss the instance's own change
+      kf == c.kf12w = 1 /\ SameView(c.post[k], [r.st EXCEPT !.calls = @ - (IF pre.w.v # c.v THEN c.waiting ELSE 0)])
+  IN (IF SameView(c.post[k], r.st) THEN {} ELSE IF kf THEN {"KF12"} ELSE {"C10-actor-view"})
      \cup (IF c.op = "read" /\ c.ret # r.ret THEN {"C10-default-value"} ELSE {})
      \cup (IF c.op = "read" /\ c.post[k].calls # c.pre[k].calls THEN {"C10-default-read-notified"} ELSE {})
      \cup (IF \E j \in others : c.post[j] # c.pre[j] THEN {"C10-other-instance-changed"} ELSE {})
